@@ -62,10 +62,13 @@ def load_findings(prop):
 _G = {}
 
 
-def _build_world(prop):
+def _build_world(prop, variant=None):
     mod = load_contracts(prop)
     w = World(Repo())
-    items = mod.build(w)
+    items = mod.build(w, variant) if variant is not None else mod.build(w)
+    if variant is not None:
+        # handle-kind variants: a contract may restrict itself to some of them
+        items = [it for it in items if getattr(it, 'variants', None) is None or variant in it.variants]
     for it in items:
         if isinstance(it, Contract):
             if it.qualname in w.contracts and w.contracts[it.qualname] is not it:
@@ -76,18 +79,18 @@ def _build_world(prop):
 
 
 def _work(arg):
-    prop, idx, timeout_ms = arg
+    prop, variant, idx, timeout_ms = arg
     smt.QUICK_TIMEOUT_MS = timeout_ms
     smt.reset_stats()
     try:
-        mod, w, items = _build_world(prop)
+        mod, w, items = _build_world(prop, variant)
         it = items[idx]
         if isinstance(it, Lemma):
             res = verify_lemma(w, it)
         else:
             res = verify_function(w, it)
         out = {
-            'qualname': res.qualname, 'paths': res.paths, 'infeasible': res.infeasible,
+            'qualname': res.qualname + ('@' + variant if variant else ''), 'paths': res.paths, 'infeasible': res.infeasible,
             'error': res.error, 'span': res.span, 'file': res.file, 'sha256': res.sha256,
             'seconds': res.seconds, 'exits': res.exits,
             'dropped': sorted(res.dropped), 'calls': sorted(res.calls),
@@ -122,7 +125,7 @@ def replay(prop, mod, func, ob, replay_dir, search=False):
     os.makedirs(replay_dir, exist_ok=True)
     path = os.path.join(replay_dir, sanitize(func['qualname'] + '__' + ob['name'] + '__' + ob['path']) + '.json')
     replayers = getattr(mod, 'REPLAYERS', {})
-    rp = replayers.get(func['qualname'], 'replayers/generic.py' if '<locals>' not in func['qualname'] and not func['qualname'].startswith('lemma') else None)
+    rp = replayers.get(func['qualname'].split('@')[0], 'replayers/generic.py' if '<locals>' not in func['qualname'] and not func['qualname'].startswith('lemma') else None)
     data = {
         'property': prop, 'function': func['qualname'], 'obligation': ob['name'],
         'path_decisions': ob['path'], 'solver': ob['backend'], 'model': ob['model'],
@@ -131,11 +134,11 @@ def replay(prop, mod, func, ob, replay_dir, search=False):
         'rerun': './check %s --replay %s' % (prop, path),
     }
     for it in _G.get('items', []):
-        if isinstance(it, Contract) and it.qualname == func['qualname']:
+        if isinstance(it, Contract) and it.qualname == func['qualname'].split('@')[0]:
             data['contract'] = {'requires': it.requires, 'ensures': it.ensures, 'raises': it.raises,
                                 'lets': it.lets, 'modifies': it.modifies}
     reproduced, output = None, ''
-    if rp is not None and ob['model']:
+    if rp is not None and (ob['model'] or search):
         with open(path, 'w') as fh:
             json.dump(data, fh, indent=1, default=str)
         try:
@@ -181,23 +184,32 @@ def main(argv):
     tier = argv[2] if len(argv) > 2 else os.environ.get('VERIF_TIER', 'quick')
     seed = int(os.environ.get('VERIF_SEED', '0') or 0)
     t0 = time.time()
-    timeout_ms = 10000 if tier == 'quick' else 60000
+    timeout_ms = int(os.environ.get('PYVC_TIMEOUT_MS', '0')) or (10000 if tier == 'quick' else 60000)
     os.makedirs(os.path.join(HERE, '.scratch'), exist_ok=True)
     os.environ['PYVC_SCRATCH'] = os.path.join(HERE, '.scratch')
-    mod, w, items = _build_world(prop)
-    _G['items'] = items
+    mod = load_contracts(prop)
+    variants = getattr(mod, 'VARIANTS', [None])
     _, finding_lines, fixed_lines = load_findings(prop)
-    n = len(items)
     only = os.environ.get('PYVC_ONLY')
-    idxs = [i for i in range(n) if not only or only in getattr(items[i], 'qualname', getattr(items[i], 'name', ''))]
+    tasks, all_items = [], []
+    for v in variants:
+        _m, w, items = _build_world(prop, v)
+        all_items += items
+        for i, it in enumerate(items):
+            nm = getattr(it, 'qualname', getattr(it, 'name', '')) + ('@' + v if v else '')
+            if not only or only in nm:
+                tasks.append((prop, v, i, timeout_ms))
+    _G['items'] = all_items
+    n = len(tasks)
     jobs = int(os.environ.get('PYVC_JOBS', '16'))
     with multiprocessing.get_context('fork').Pool(min(jobs, max(1, n))) as pool:
-        results = pool.map(_work, [(prop, i, timeout_ms) for i in idxs], chunksize=1)
+        results = pool.map(_work, tasks, chunksize=1)
 
     # ---- aggregate
     total = proved = refuted = unknown = known = 0
     stats = {}
     funcs, errors, violations, known_hits = [], [], [], {}
+    unknowns = []
     known_first = {}
     names = set()
     dead, dropped, trusted_calls = set(), set(), set()
@@ -233,6 +245,7 @@ def main(argv):
                 violations.append((r, o))
             else:
                 unknown += 1
+                unknowns.append((r, o))
                 errors.append((r['qualname'], ('unknown', '%s: solver returned unknown (%s)' % (o['name'], o['backend']))))
         for o in r['obligations'][:2]:
             samples.append({'obligation': r['qualname'] + '/' + o['name'], 'verdict': o['verdict'],
@@ -288,6 +301,22 @@ def main(argv):
     for r, o in violations:
         by_func.setdefault(r['qualname'], []).append((r, o))
     undecided_aux = []
+    # an obligation that was discharged on the unchanged tree (it is in the
+    # committed baseline) and is now `unknown`: the solver gives no
+    # counter-model, so the function's concretiser searches (bounded) for a
+    # failing input on the real code; without one the verdict stays UNDECIDED
+    base_names = set()
+    if os.path.exists(os.path.join(HERE, 'baselines', prop + '.json')):
+        base_names = set(json.load(open(os.path.join(HERE, 'baselines', prop + '.json'))))
+    searched = set()
+    for r, o in unknowns:
+        qn = r['qualname']
+        if qn in by_func or qn in searched or (qn + '/' + o['name']) not in base_names:
+            continue
+        searched.add(qn)
+        path, reproduced = replay(prop, mod, r, o, replay_dir, search=True)
+        if reproduced:
+            viol_lines.append('VIOLATION property=%s replay=%s obligation=%s/%s' % (prop, path, qn, o['name']))
     for qn, lst in by_func.items():
         tops = [(r, o) for r, o in lst if not is_aux(o['name'])]
         if tops:
